@@ -327,6 +327,15 @@ func (fr *frame) lookup(instr *ssa.Lookup, x, idx value) value {
 // numeric datatypes and strings.  Both operands must have identical
 // dynamic type.
 func (fr *frame) binop(op token.Token, t types.Type, x, y value) value {
+	if _, ok := x.(tokstr); ok || isTok(y) {
+		switch op {
+		case token.EQL:
+			return tokEq(x, y)
+		case token.NEQ:
+			return notV(tokEq(x, y))
+		}
+		panic(engineError{fmt.Sprintf("operation %v on an opaque token string at %s", op, fr.pos())})
+	}
 	_, sx := x.(sym)
 	_, sy := y.(sym)
 	if sx || sy {
@@ -1552,3 +1561,5 @@ func fandbits[F floaty](x, y F) F {
 	}
 	return x
 }
+
+func isTok(v value) bool { _, ok := v.(tokstr); return ok }
